@@ -125,15 +125,26 @@ def work(args):
     k, jobs, outdir = args
     path = os.path.join(outdir, 'dec_%04d.ndjson' % k)
     n = 0
+    cur = os.path.join(outdir, 'cur_%04d.json' % k)
+    cfd = os.open(cur, os.O_WRONLY | os.O_CREAT, 0o600)
     with open(path, 'w') as fh:
         for ident, ep, hexs, cls in jobs:
             b = bytes.fromhex(hexs)
             eps = [ep] if ep != '*' and ep != 'top' else (list(ALL) if ep == '*' else list(TOP))
             for j, e in enumerate(eps):
+                # what is being called right now (the executed-lines meter cannot stop a call that is stuck inside C code -
+                # a regular expression, a big-number conversion; the parent watches this file's age and kills the worker)
+                rec = json.dumps({'id': ident * 64 + j, 'ep': e, 'cls': cls, 'n': len(b), 'hex': hexs[:400]}).encode()
+                os.pwrite(cfd, rec.ljust(700), 0)
                 line = call(ident * 64 + j, e, b, cls)
                 # keep the input only where something is wrong (the file stays small)
                 if line['over'] or (line['upd'] and line['inrange'] and (line['raised'] or not line['isdict'])) or line['work'] > 4000 + 80 * len(b):
                     line['hex'] = hexs[:400]
                 fh.write(json.dumps(line, separators=(',', ':')) + '\n')
                 n += 1
+    try:
+        os.close(cfd)
+        os.remove(cur)
+    except OSError:
+        pass
     return path, n
